@@ -281,6 +281,70 @@ fn check_large(size: usize, relation: u8, case: &Case, idx: u64, acc: &mut Acc) 
             acc.violate(&format!("large/Dual2/eq-by-name/{}", cls), idx, cj(), json!(true), json!(false));
         }
     }
+    // remainder, sums and float operands on large numbers
+    if relation == 0 || relation == 2 {
+        let hflat = |l: &Vec<usize>, side: usize| -> Vec<f64> {
+            let mut h = vec![];
+            for a in l {
+                for b in l {
+                    h.push(0.5 * hv(*a, *b, side));
+                }
+            }
+            h
+        };
+        // float on either side, remainder and a three-term sum (first and second order)
+        {
+            acc.evals_add(6);
+            let a1 = Dual::try_new(7.5, names(&la), la.iter().map(|n| gv(*n, 0)).collect()).unwrap();
+            let b1 = Dual::try_new(-2.0, names(&lb), lb.iter().map(|n| gv(*n, 1)).collect()).unwrap();
+            let a2 = Dual2::try_new(7.5, names(&la), la.iter().map(|n| gv(*n, 0)).collect(), hflat(&la, 0)).unwrap();
+            let b2 = Dual2::try_new(-2.0, names(&lb), lb.iter().map(|n| gv(*n, 1)).collect(), hflat(&lb, 1)).unwrap();
+            let (ra, rb) = (mk_ref(&la, 7.5, 0, true), mk_ref(&lb, -2.0, 1, true));
+            // 7.5 % -2.0 : quotient -3 (truncated), remainder 1.5 ; derivatives a' + 3 b'
+            let wrem = ra.add(&rb, 3.0);
+            let wsum = ra.add(&rb, 1.0).add(&ra, 1.0);
+            let wfl = ra.add(&DR::leaf(nv, 0.0, None), 1.0); // a + 0.25 - 0.25 ... used for shape only
+            let _ = wfl;
+            let judge1 = |got: &Dual, w: &DR| -> bool {
+                let g = got.gradient1(uni.clone());
+                close(got.real(), w.v, 1e-12) && (0..nv).all(|i| close_scaled(g[i], w.g[i], 1e-12, w.g[i].abs().max(1.0)))
+            };
+            let judge2 = |got: &Dual2, w: &DR| -> bool {
+                let g = got.gradient1(uni.clone());
+                let h = got.gradient2(uni.clone());
+                let hs = w.h.iter().fold(1.0_f64, |m, x| m.max(x.abs()));
+                close(got.real(), w.v, 1e-12)
+                    && (0..nv).all(|i| close_scaled(g[i], w.g[i], 1e-12, w.g[i].abs().max(1.0)))
+                    && (0..nv).all(|i| (0..nv).all(|j| close_scaled(h[[i, j]], w.h[i * nv + j], 1e-12, hs)))
+            };
+            if !judge1(&(&a1 % &b1), &wrem) {
+                acc.violate("large/Dual/rem", idx, cj(), json!({"size": size, "relation": relation, "want": "a - trunc(a/b) b by name"}), json!(format!("{:?}", &a1 % &b1)));
+            }
+            if !judge2(&(&a2 % &b2), &wrem) {
+                acc.violate("large/Dual2/rem", idx, cj(), json!({"size": size, "relation": relation}), json!((&a2 % &b2).real()));
+            }
+            let s1: Dual = vec![a1.clone(), b1.clone(), a1.clone()].into_iter().sum();
+            if !judge1(&s1, &wsum) {
+                acc.violate("large/Dual/sum", idx, cj(), json!({"size": size, "relation": relation}), json!(format!("{:?}", s1)));
+            }
+            let s2: Dual2 = vec![a2.clone(), b2.clone(), a2.clone()].into_iter().sum();
+            if !judge2(&s2, &wsum) {
+                acc.violate("large/Dual2/sum", idx, cj(), json!({"size": size, "relation": relation}), json!(s2.real()));
+            }
+            // float operand on either side: (2.0 * a - 0.5) / 4.0 + 1.0 / a
+            let wmix = ra.add(&DR::leaf(nv, 0.0, None), 1.0);
+            let mut wm = DR { v: (2.0 * wmix.v - 0.5) / 4.0, g: wmix.g.iter().map(|x| x * 0.5).collect(), h: wmix.h.iter().map(|x| x * 0.5).collect() };
+            wm = wm.add(&ra.recip(), 1.0);
+            let m1 = (2.0 * &a1 - 0.5) / 4.0 + 1.0 / &a1;
+            if !judge1(&m1, &wm) {
+                acc.violate("large/Dual/float-operands", idx, cj(), json!({"size": size}), json!(format!("{:?}", m1)));
+            }
+            let m2 = (2.0 * &a2 - 0.5) / 4.0 + 1.0 / &a2;
+            if !judge2(&m2, &wm) {
+                acc.violate("large/Dual2/float-operands", idx, cj(), json!({"size": size}), json!(m2.real()));
+            }
+        }
+    }
     acc.sample(cj);
 }
 
@@ -496,6 +560,40 @@ pub fn check(case: &Case, idx: u64, acc: &mut Acc) {
             acc.violate(&format!("eq/Dual2/{}", cls), idx, cj(), json!(want_eq), json!([e1, e2]));
         }
     }
+    // ---------------- negative-zero twins: a derivative of -0.0 is a zero derivative. Each operand with a zero
+    // entry is re-built with -0.0 in its place; equality with the other operand (either order) must not change,
+    // and the twin equals the original.
+    {
+        let nz = |s: &NumSpec| -> Option<NumSpec> {
+            if s.g.iter().chain(s.h.iter()).any(|x| *x == 0.0 && x.is_sign_positive()) {
+                let mut t = s.clone();
+                for x in t.g.iter_mut().chain(t.h.iter_mut()) {
+                    if *x == 0.0 {
+                        *x = -0.0;
+                    }
+                }
+                Some(t)
+            } else {
+                None
+            }
+        };
+        for (which, twin, orig, other) in [("left", nz(sa), sa, sb), ("right", nz(sb), sb, sa)] {
+            if let Some(t) = twin {
+                acc.evals_add(4);
+                acc.bump("negative-zero twins");
+                let want1 = ref_eq(&orig.refd1(), &other.refd1(), false);
+                let (t1, o1, x1) = (t.dual(&u), orig.dual(&u), other.dual(&u));
+                if (t1 == x1) != want1 || (x1 == t1) != want1 || !(t1 == o1) || !(o1 == t1) {
+                    acc.violate("eq/Dual/negative-zero-derivative", idx, cj(), json!({"twin_of": which, "want": want1}), json!([t1 == x1, x1 == t1, t1 == o1, o1 == t1]));
+                }
+                let want2 = ref_eq(&orig.refd2(), &other.refd2(), true);
+                let (t2, o2, x2) = (t.dual2(&u), orig.dual2(&u), other.dual2(&u));
+                if (t2 == x2) != want2 || (x2 == t2) != want2 || !(t2 == o2) || !(o2 == t2) {
+                    acc.violate("eq/Dual2/negative-zero-derivative", idx, cj(), json!({"twin_of": which, "want": want2}), json!([t2 == x2, x2 == t2, t2 == o2, o2 == t2]));
+                }
+            }
+        }
+    }
     if idx % 9973 == 0 {
         acc.sample(cj);
     }
@@ -535,7 +633,7 @@ pub fn run(ctx: &Ctx, replay_file: Option<String>) -> ! {
          are a function of the NAME (never of the position), so all list permutations of the same number are covered. \
          Non-trivial: pairs whose vars_cmp class (observed through the public vars_cmp) is not ArcEquivalent; the run \
          refuses to report if any of the five classes or the 'equal pair' class is empty. Oracle: by-name RefDual \
-         result, union of names each once, matching shapes, == iff equal by name with missing == 0. In addition a \
+         result, union of names each once, matching shapes, == iff equal by name with missing == 0, also when a zero derivative is written -0.0 (negative-zero twin of every operand that has a zero entry). In addition a \
          menu of LARGE layouts (7 .. 17, 33, 63, 64, 65, 70, 130 names, non-dyadic derivative values) x 9 relations of the \
          second list to the first (same, rotated, reversed, every other name, superset, disjoint, overlapping, ends fixed \
          with the middle reversed, thinned and pairwise swapped) against a dense by-name reference.",
